@@ -84,6 +84,7 @@ func c07Options(t *tape.Tape, thorough bool) gen.Options {
 	o.Overloads = t.Bool(1, 4)
 	o.BigBodies = t.Bool(1, 4)
 	o.TwinNames = t.Bool(1, 3)
+	o.SamePkgConflict = t.Bool(1, 2)
 	return o
 }
 
